@@ -31,9 +31,9 @@ type genFunc struct {
 
 func newGen(r *rand.Rand) *gen { return &gen{r: r, hits: map[string]int{}} }
 
-func (g *gen) hit(k string) { g.hits[k]++ }
+func (g *gen) hit(k string)             { g.hits[k]++ }
 func (g *gen) pick(xs ...string) string { return xs[g.r.Intn(len(xs))] }
-func (g *gen) chance(p float64) bool   { return g.r.Float64() < p }
+func (g *gen) chance(p float64) bool    { return g.r.Float64() < p }
 
 var genNums = []string{"0", "1", "2", "3", "-1", "0.5", "2.7", "30000", "1000001", "1e30", "-1e30", "2147483648", "9223372036854775808", "1e308", "5e-324", "0x10", "1e", "010", ".5", "100", "7"}
 var genStrs = []string{`""`, `"a"`, `"abc"`, `"3x"`, `" 12 "`, `"\xff"`, `"a\0b"`, `"é"`, `"a("`, `"[ab]+"`, `"%d"`, `"%s"`, `"%c"`, `"%*d"`, `"%z"`, `"%5.2f|%-3s"`, `"\n"`, `","`, `" "`, `"nan"`, `"+inf"`, `"0x1A"`, `"1e400"`, `"-"`, `"x y z"`, `"\\"`, `"&"`, `"\\&"`}
